@@ -153,8 +153,9 @@ class Interp:
         if bound_self is not None:
             args = [bound_self] + list(args)
         env = self.bind(fi, args, kwargs)
-        saved = (self.cur_func, self.loop_ordinal)
+        saved = (self.cur_func, self.loop_ordinal, getattr(self, 'cur_self', None))
         self.cur_func = key
+        self.cur_self = bound_self if bound_self is not None else (args[0] if (fi.cls and args and isinstance(args[0], SObj)) else None)
         self.loop_ordinal = {}
         self.depth += 1
         try:
@@ -164,7 +165,7 @@ class Interp:
             return r.value
         finally:
             self.depth -= 1
-            self.cur_func, self.loop_ordinal = saved
+            self.cur_func, self.loop_ordinal, self.cur_self = saved
 
     def bind(self, fi, args, kwargs):
         node = fi.node
